@@ -34,6 +34,7 @@ type Engine struct {
 	allCon []*Contract
 	purePkgs map[string]bool // assumption A4: functions of these packages are pure functions of their arguments
 	immHeaps map[string]bool // heap components never written by /repo (fields of struct types of pure packages)
+	pureElemHeaps map[string]bool // element heaps of slices of pure-package node types (written only where an accessor result is allocated)
 
 	structIDs map[string]*structInfo
 	typeTags  map[string]int
@@ -56,7 +57,7 @@ type structInfo struct {
 func NewEngine(repo, verif string, patterns []string) (*Engine, error) {
 	e := &Engine{repo: repo, verif: verif, pkgs: map[string]*ssa.Package{}, ppkgs: map[string]*packages.Package{},
 		cons: map[*ssa.Function]*Contract{}, icons: map[string]*Contract{}, extcon: map[string]*Contract{},
-		specs: map[string]*SpecFunc{}, purePkgs: map[string]bool{}, immHeaps: map[string]bool{}, structIDs: map[string]*structInfo{}, typeTags: map[string]int{}, fieldIDs: map[string]int{}}
+		specs: map[string]*SpecFunc{}, purePkgs: map[string]bool{}, immHeaps: map[string]bool{}, pureElemHeaps: map[string]bool{}, structIDs: map[string]*structInfo{}, typeTags: map[string]int{}, fieldIDs: map[string]int{}}
 	e.fset = token.NewFileSet()
 	cfg := &packages.Config{Mode: packages.LoadAllSyntax, Dir: repo, BuildFlags: []string{"-tags=verif"}, Fset: e.fset,
 		Env: append(os.Environ(), "GOFLAGS=-mod=mod", "GOPROXY=off", "GOSUMDB=off", "GOTOOLCHAIN=local")}
